@@ -447,6 +447,82 @@ def pat_batch(rnd, sid):
     return {"id": sid, "tick_us": 2000, "sources": srcs, "progs": progs, "steps": steps}
 
 
+def pat_replace(rnd, sid, cls):
+    """A callback removes its own source (or another one) and inserts a new source in the same callback, so
+    that the freed slot is reused immediately; stale tokens are used afterwards."""
+    r = rnd
+    life = 1 if cls in ("life", "faults") or r.random() < 0.4 else 0
+
+    def mk(s, k=None):
+        k = k or r.choice(["ping", "comp", "comp"])
+        d = {"s": s, "kind": k}
+        if k == "comp":
+            d["children"] = [{"interest": "r", "mode": r.choice(["level", "level", "oneshot", "edge"])}]
+        if life and r.random() < 0.8:
+            d["life"] = 1
+            if k == "comp" and r.random() < 0.3:
+                d["synth"] = [r.choice([0, 1, 2])]
+        return d
+    srcs = [mk(1), mk(2), mk(3)]
+    if r.random() < 0.5:
+        srcs.append(mk(4, r.choice(["ping", "timer"])))
+        if srcs[-1]["kind"] == "timer":
+            srcs[-1]["dl"] = 1
+            srcs[-1]["held"] = 1
+            srcs[-1].pop("life", None)
+
+    def cause(d):
+        if d["kind"] == "ping":
+            return [{"op": "ping", "s": d["s"]}]
+        if d["kind"] == "comp":
+            return [{"op": "wr", "s": d["s"], "c": 0}]
+        return []
+    steps = [{"op": "insert", "s": 1}]
+    if r.random() < 0.6:
+        steps.append({"op": "insert", "s": 2})
+    steps += cause(srcs[0]) + (cause(srcs[1]) if r.random() < 0.5 else [])
+    steps.append({"op": "dispatch"})
+    for d in srcs:
+        if r.random() < 0.6:
+            steps += cause(d)
+    steps.append({"op": "advance", "k": 2})
+    steps.append({"op": "dispatch"})
+    # stale tokens: token 0 belonged to source 1
+    for _ in range(r.choice([0, 1, 2])):
+        steps.append({"op": r.choice(["remove", "disable", "update", "enable"]), "t": r.choice([0, 0, 1])})
+    for d in srcs:
+        if r.random() < 0.5:
+            steps += cause(d)
+    steps.append({"op": "dispatch"})
+    steps.append({"op": "dispatch"})
+    progs = {}
+    new_ids = [d["s"] for d in srcs[1:]]
+    for d in srcs:
+        pl = []
+        for k in range(4):
+            ops = []
+            if d["kind"] == "comp":
+                ops.append({"op": "rd", "s": d["s"], "c": 0})
+            if d["s"] == 1 and k == 0:
+                victim = 1 if r.random() < 0.7 else 2
+                a = {"op": "remove", "ts": victim}
+                b = {"op": "insert", "s": r.choice(new_ids)}
+                ops += [a, b] if r.random() < 0.7 else [b, a]
+                if r.random() < 0.4:
+                    ops += cause(srcs[b["s"] - 1])
+            elif r.random() < 0.25:
+                ops.append(r.choice([{"op": "update", "ts": d["s"]}, {"op": "remove", "ts": 1},
+                                     {"op": "disable", "t": 0}, {"op": "insert", "s": r.choice(new_ids)}]))
+            p = {"ops": ops}
+            if d["kind"] == "comp":
+                p["ret"] = r.choice(["continue", "continue", "reregister", "remove" if k > 0 else "continue"])
+            if d["kind"] == "timer":
+                p["ret"] = "drop"
+            pl.append(p)
+        progs["s%d" % d["s"]] = pl
+    return {"id": sid, "tick_us": 2000, "sources": srcs, "progs": progs, "steps": steps}
+
+
 def gen(seed, n, classes=None):
     classes = classes or CLASSES
     out = []
@@ -455,6 +531,8 @@ def gen(seed, n, classes=None):
         rnd = random.Random(seed * 1000003 + i)
         if i % 4 == 3 and cls in ("timers", "mix", "disable", "reuse", "ready"):
             out.append(pat_batch(rnd, "b%d_%s_%d" % (seed, cls, i)))
+        elif i % 4 == 1 and cls in ("reuse", "life", "mix", "faults"):
+            out.append(pat_replace(rnd, "p%d_%s_%d" % (seed, cls, i), cls))
         else:
             out.append(G(rnd, cls).build("r%d_%s_%d" % (seed, cls, i)))
     return out
